@@ -18,6 +18,8 @@ import numpy as _np
 _np.seterr(all="ignore")
 
 from . import core, tlc  # noqa
+from . import forms as _forms
+_forms.install()
 
 
 class Watchdog(Exception):
@@ -63,9 +65,11 @@ def main(argv):
             return 2
         chk = core.Check(pid, tier, seed)
         _arm(LIMITS[tier])
+        _forms.activate(chk)
         mod.run(chk)
         import signal
         signal.alarm(0)
+        _forms.collect(chk)
         return chk.finish()
     except Watchdog:
         # the unchanged tree answers in a small fraction of the limit: some call into the library no longer returns
